@@ -2,8 +2,11 @@
 namespace GV.Gen.SegCounts
 /-- era ↦ literal `minRawLength` passed to common.ValidateBlockBodyHash in New<Era>BlockFromCbor -/
 def segCount : List (String × Nat) := [("shelley", 4), ("allegra", 4), ("mary", 4), ("alonzo", 5), ("babbage", 5), ("conway", 5)]
-/-- era ↦ number of CBOR array elements of the era's <Era>Block struct -/
+/-- era ↦ number of CBOR array elements of the struct <Era>Block.UnmarshalCBOR decodes into
+    (cbor.Decode into a StructAsArray struct demands exactly this many elements) -/
 def arity : List (String × Nat) := [("shelley", 4), ("allegra", 4), ("mary", 4), ("alonzo", 5), ("babbage", 5), ("conway", 5)]
+/-- era ↦ number of exported CBOR array fields of the <Era>Block struct itself -/
+def structArity : List (String × Nat) := [("shelley", 4), ("allegra", 4), ("mary", 4), ("alonzo", 5), ("babbage", 5), ("conway", 5)]
 /-- DijkstraBlock.UnmarshalCBOR: `len(items) != 2` is an error -/
 def dijkstraArity : Nat := 2
 /-- exported array fields of DijkstraBlock -/
